@@ -102,7 +102,8 @@ theorem step_complete {I : Interp} {env : Env} {code : List Nat} {p : Evm.Params
     (hcode : ∀ b ∈ code, b < 256) {w0 : Evm.World} (hW : WRel I w0 w f.this st.storage st.transient)
     (hsat : Sat I st.path) {r : Evm.World × Evm.Halt} (hh : Halts p w f r) :
     (∃ st' ∈ (step s o cfg env code st).next, Sat I st'.path ∧
-        ∃ w' f', R I env code p st' f' ∧ WRel I w0 w' f.this st'.storage st'.transient ∧ Halts p w' f' r) ∨
+        ∃ w' f', CReach p (w, f) (w', f') ∧ R I env code p st' f' ∧ WRel I w0 w' f.this st'.storage st'.transient ∧
+          Halts p w' f' r) ∨
     (∃ e ∈ (step s o cfg env code st).ends, EndCovers I w0 f.this r e) ∨
     (step s o cfg env code st).bounded ≠ [] :=
   Lemmas.Sevm.step_complete hs ho hI hR hl hmem hcode hW hsat hh
@@ -118,7 +119,7 @@ theorem complete {s : Simp} (hs : SimpSound s) {o : Oracle} (ho : OracleSound o)
     (hex : Evm.exec p n w f0 = some (w', h)) :
     (∃ e ∈ (run s o cfg env code fuel).ends, Sat I e.st.path ∧
         ((∃ h0, e.out = .halt h0 ∧ haltWith h0 (e.data.map (·.eval I)) = h ∧ e.tag = .normal ∧
-            WRel I w w' f0.this e.st.storage e.st.transient) ∨
+            WRel I w w' f0.this e.st.storage e.st.transient ∧ (∀ b ∈ e.data, b.WF ∧ b.width = 8)) ∨
          (∃ r, e.out = .stuck r) ∨ e.tag ≠ .normal)) ∨
     (run s o cfg env code fuel).boundedLoops ≠ [] ∨
     (run s o cfg env code fuel).depthCut = true ∨
@@ -136,7 +137,7 @@ example : ∃ e ∈ exRes.ends, Sat exI e.st.path ∧
      (∃ r, e.out = .stuck r) ∨ e.tag ≠ .normal) := by
   suffices hs : ∃ w', ∃ e ∈ exRes.ends, Sat exI e.st.path ∧
       ((∃ h0, e.out = .halt h0 ∧ haltWith h0 (e.data.map (·.eval exI)) = .invalidOpcode ∧ e.tag = .normal ∧
-          WRel exI exW w' exF0.this e.st.storage e.st.transient) ∨
+          WRel exI exW w' exF0.this e.st.storage e.st.transient ∧ (∀ b ∈ e.data, b.WF ∧ b.width = 8)) ∨
        (∃ r, e.out = .stuck r) ∨ e.tag ≠ .normal) by
     obtain ⟨w', e, hm, hsat, hc⟩ := hs
     refine ⟨e, hm, hsat, ?_⟩
@@ -169,5 +170,79 @@ example : (run foldSimp (fun _ _ => .unsat) {} exEnv exCode 100).ends = [] ∧
   intro h
   have := h [] (.lit true) rfl exI (Sat.nil _)
   cases this
+
+/-! ### message calls (Model.SevmCalls) -/
+
+/-- **C02.complete_calls.** The same for the frame-stack machine `runC` (see `C01.sound_calls` for what it models and
+    for the hypotheses): whenever the reference EVM — executing nested calls — terminates with `(w', h)` on the input
+    `I` describes, the result of `runC` has an end whose path `I` satisfies and which reports exactly `h` (kind, and
+    its data evaluated under `I`), untagged, its storage maps of all modelled accounts describing exactly `w'` — or
+    that end is an error report (stuck: also a symbolic call target, a precompile, a call with a value, depth 1024) or
+    a tagged end — or a flag is raised. Nothing a callee or a resumed caller does is dropped silently. -/
+theorem complete_calls {s : Simp} (hs : SimpSound s) {o : Oracle} (ho : OracleSound o) (cfg : Cfg) (env : Env)
+    (codes : List (Nat × List Nat)) (this : Nat) (fuel : Nat) (p : Evm.Params) (w : Evm.World)
+    (hmem : cfg.maxMem + 32 ≤ p.memLimit) (hdep : 1024 ≤ p.maxDepth)
+    (hcodes : ∀ a, w.codeOf a = codeOf codes a)
+    (hcb : ∀ a prog, codeOf codes a = some prog → ∀ b ∈ prog, b < 256)
+    (hz : ∀ a, Modelled codes this a → C01.ZeroStorage w a)
+    (I : Interp) (hI : I.Std) (f0 : Evm.Frame)
+    (hR0 : R I env ((codeOf codes this).getD []) p initState f0) (hthis : f0.this = this) (hd0 : f0.depth = 0)
+    (n : Nat) (w' : Evm.World) (h : Evm.Halt) (hex : Evm.exec p n w f0 = some (w', h)) :
+    (∃ ce ∈ (runC s o cfg env codes this fuel).ends, Sat I ce.e.st.path ∧
+        ((∃ h0, ce.e.out = .halt h0 ∧ haltWith h0 (ce.e.data.map (·.eval I)) = h ∧ ce.e.tag = .normal ∧
+            WRelM I (Modelled codes this) w w' (stoOf ce.stores) ∧ (∀ b ∈ ce.e.data, b.WF ∧ b.width = 8)) ∨
+         (∃ r, ce.e.out = .stuck r) ∨ ce.e.tag ≠ .normal)) ∨
+    (runC s o cfg env codes this fuel).boundedLoops ≠ [] ∨
+    (runC s o cfg env codes this fuel).depthCut = true ∨
+    (runC s o cfg env codes this fuel).outOfFuel = true :=
+  exploreC_complete (cfg := cfg) (codes := codes) (S := Modelled codes this) (r := (w', h)) hs ho hmem hdep hcodes
+    (fun _ _ h => modelled_of_code h) hcb hI fuel 0 [initC env codes this] {}
+    ⟨initC env codes this, List.mem_singleton.2 rfl, Sat.nil I, w, f0, [], relC_init hR0 hthis hd0 hcb hz, n, hex⟩
+
+/-- `complete_calls` on the caller / callee pair of Props.C01: the reference EVM returns the callee's 32 bytes; no
+    flag is raised in that run and its only end is an untagged halt, so it must be the reporting one -/
+example : ∃ ce ∈ (runC foldSimp exOracle {} exEnv C01.exCodes 0x1000 100).ends,
+    haltWith (.success []) (ce.e.data.map (·.eval exI)) = .success (List.replicate 31 0 ++ [0x2a]) := by
+  have hex : ∃ w', Evm.exec C01.exPC 40 C01.exWC { exF0 with code := C01.callerCode } =
+      some (w', .success (List.replicate 31 0 ++ [0x2a])) := by
+    have : (Evm.exec C01.exPC 40 C01.exWC { exF0 with code := C01.callerCode }).map (·.2) =
+        some (.success (List.replicate 31 0 ++ [0x2a])) := by decide +kernel
+    match h : Evm.exec C01.exPC 40 C01.exWC { exF0 with code := C01.callerCode }, this with
+    | some (w', _), this => exact ⟨w', by simp only [Option.map_some, Option.some.injEq] at this; rw [← this]⟩
+  obtain ⟨w', hex⟩ := hex
+  have hR : R exI exEnv ((codeOf C01.exCodes 0x1000).getD []) C01.exPC initState { exF0 with code := C01.callerCode } :=
+    ⟨rfl, rfl, StackRel.nil, ⟨exR.env.caller, exR.env.origin, exR.env.callvalue, exR.env.address, exR.env.cd,
+      exR.env.cdByte, exR.env.cdSize, exR.env.isStatic⟩, exR.subst, MemRel.nil _, MemRel.nil _⟩
+  have hshape : ∀ ce ∈ (runC foldSimp exOracle {} exEnv C01.exCodes 0x1000 100).ends,
+      ce.e.out = .halt (.success []) ∧ ce.e.tag = .normal := by decide +kernel
+  have hflags : (runC foldSimp exOracle {} exEnv C01.exCodes 0x1000 100).boundedLoops = [] ∧
+      (runC foldSimp exOracle {} exEnv C01.exCodes 0x1000 100).depthCut = false ∧
+      (runC foldSimp exOracle {} exEnv C01.exCodes 0x1000 100).outOfFuel = false := by decide +kernel
+  rcases complete_calls foldSimp_sound oracleSound_unknown {} exEnv C01.exCodes 0x1000 100 C01.exPC C01.exWC
+      (by decide) (by decide) (fun a => rfl) (by
+        intro a prog hc b hb
+        have hall : ∀ q ∈ C01.exCodes, ∀ b ∈ q.2, b < 256 := by decide
+        unfold codeOf at hc
+        cases hf : C01.exCodes.find? (fun q => q.1 == a) with
+        | none => rw [hf] at hc; cases hc
+        | some q =>
+          rw [hf] at hc
+          simp only [Option.map_some, Option.some.injEq] at hc
+          subst hc
+          exact hall q (List.mem_of_find?_eq_some hf) b hb)
+      (fun _ _ _ => ⟨rfl, rfl⟩) exI exI_std _ hR rfl rfl 40 w' _ hex with
+    ⟨ce, hm, _, hc⟩ | h | h | h
+  · obtain ⟨ho', ht'⟩ := hshape ce hm
+    rcases hc with ⟨h0, ho0, hw, _⟩ | ⟨r, hr⟩ | ht
+    · rw [ho'] at ho0
+      cases ho0
+      exact ⟨ce, hm, hw⟩
+    · rw [ho'] at hr; cases hr
+    · exact absurd ht' ht
+  · exact absurd hflags.1 h
+  · exact absurd (show (runC foldSimp exOracle {} exEnv C01.exCodes 0x1000 100).depthCut = true from h)
+      (by rw [hflags.2.1]; decide)
+  · exact absurd (show (runC foldSimp exOracle {} exEnv C01.exCodes 0x1000 100).outOfFuel = true from h)
+      (by rw [hflags.2.2]; decide)
 
 end HalmosVerif.Props.C02
